@@ -27,7 +27,7 @@ RULE = ('graph_synthetic: random DAGs (1-4 levels) of synthetic MoveDataMixin da
 TRUSTED_BASE = ['abstraction of python objects into the model graph (harness/props/C18.py: extract / canon)',
                 'torch.Tensor.to, copy.deepcopy, Module._apply as oracles (modelled, not verified)']
 ASSUMPTIONS = ['CPU only (device moves are not modelled)', 'requested dtypes are floating or complex',
-               'SpatialDimension holds tensors or plain values only; no Module is itself a MoveDataMixin (true in mrpro today)']
+               'no Module is itself a MoveDataMixin (true in mrpro today)']
 PREAMBLE = 'From MrVerif Require Import Base.Prelude Model.MoveData.\nLocal Open Scope nat_scope.'
 
 DTYPES = {'f16': torch.float16, 'f32': torch.float32, 'f64': torch.float64, 'c32': torch.complex32, 'c64': torch.complex64,
@@ -550,7 +550,7 @@ def run_call(obj, c):
         return obj.to(dt, copy=cp) if c['style'] != 1 else obj.to(dt, False, copy=cp)
     if k == 'to_tensor':
         other = torch.zeros(1, dtype=dt)
-        return obj.to(tensor=other, copy=cp) if c.get('kw') else obj.to(other, copy=cp) if c['style'] != 1 else obj.to(other, False, copy=cp)
+        return obj.to(tensor=other, copy=cp) if c.get('kw') or c['style'] == 1 else obj.to(other, copy=cp) if c['style'] == 0 else obj.to(other, False, copy=cp)
     if k == 'cpu':
         return obj.cpu(copy=cp)
     if k in ('double', 'single', 'half'):
@@ -587,13 +587,13 @@ def build(case):
     if case['kind'] == 'synthetic':
         root = build_synthetic(rng)
     elif case['kind'] == 'kf_spatial':
-        # minimal pattern of KF-C18-1: one tensor object is a component of a SpatialDimension and also a field outside of it
+        # pattern of the former finding KF-C18-1 (repaired by c3cf2ec): one tensor object is a component of a SpatialDimension and also a field outside of it
         from mrpro.data import SpatialDimension
         t = rand_tensor(rng, 'f32', [2])
         root = syn_class(2)(make_spatial(t, rand_tensor(rng, 'f32', [2]), rand_tensor(rng, 'f32', [2])),
                             t if case['seed'] % 2 else make_spatial(rand_tensor(rng, 'f32', [2]), t, rand_tensor(rng, 'f32', [2])))
     elif case['kind'] == 'kf_module':
-        # minimal pattern of KF-C18-2: a Rotation (module) field and a precision-changing call without copy
+        # pattern of the former finding KF-C18-2 (repaired by ff6337f): a Rotation (module) field and a precision-changing call without copy
         root = _acq_info(rng, fdt='f64') if case['seed'] % 2 else syn_class(2)(rand_rotation(rng, 'f64'), rand_tensor(rng, 'f64', [2]))
     else:
         root = build_container(case['kind'], rng)
@@ -728,8 +728,7 @@ def property_oracle(case, root, res, snap_before, strict):
             if id(o) in first:
                 q, qpc = first[id(o)]
                 if p in res_by_path and q in res_by_path and res_by_path[p][0] is not res_by_path[q][0]:
-                    explained = (not strict) and pc != qpc and 'S' in (pc[0], qpc[0]) and classify(o) != 'S'
-                    if not explained:
+                    if True:
                         msgs.append(f'copy=True: fields {q} and {p} were one object ({type(o).__name__}) in the source but are two in the result')
                         break
             else:
@@ -757,8 +756,6 @@ def source_changes(g, n0, snap, plains, strict, cp):
     msgs = []
     for o in g.objs[:n0]:
         c = classify(o)
-        if c == 'Mod' and not cp and not strict:
-            continue  # KF-C18-2 (Module._apply works in place on the source's module; checked in its own family)
         for t in ([o] if c == 'T' else module_tensors(o) if c == 'Mod' else []):
             if id(t) not in snap:
                 msgs.append('source module got a new tensor object')
@@ -961,9 +958,10 @@ FAMILIES = [
            theorem='C18_kind, C18_values, C18_alias, C18_fresh, C18_source_untouched'),
     Family('all_overloads', gen_all_calls, impl, coq, PREAMBLE, compare, oracle, nontrivial=nontrivial, descr=descr, shard=40,
            theorem='C18_kind (all parsers of to())'),
-    Family('kf_spatial_alias', gen_kf_spatial, impl, coq, PREAMBLE, compare, oracle, descr=descr, shard=40,
-           theorem='C18_alias_spatial_refuted'),
-    Family('kf_module_inplace', gen_kf_module, impl, coq, PREAMBLE, compare, oracle, descr=descr, shard=40,
-           theorem='C18_source_modified_nocopy_refuted'),
-    Family('kf_to_tensor_keyword', gen_kf_kw, impl, coq, PREAMBLE, compare, oracle_kw, descr=descr, shard=40, theorem='C18_kind (parser 3)'),
+    # regression families for the repaired findings KF-C18-1..3 (also in corpus/C18/*.json)
+    Family('spatial_alias', gen_kf_spatial, impl, coq, PREAMBLE, compare, oracle, descr=descr, shard=40,
+           theorem='C18_alias (through SpatialDimension components)'),
+    Family('module_nocopy', gen_kf_module, impl, coq, PREAMBLE, compare, oracle, descr=descr, shard=40,
+           theorem='C18_source_untouched, C18_module_fresh'),
+    Family('to_tensor_keyword', gen_kf_kw, impl, coq, PREAMBLE, compare, oracle_kw, descr=descr, shard=40, theorem='C18_kind (parser 3)'),
 ]
